@@ -235,11 +235,15 @@ Definition write_ready (st : wstate) : bool :=
 Definition wfull (st : wstate) : bool := negb (write_ready st).
 Definition wempty (st : wstate) : bool := match wbuf st with [] => true | _ => false end.
 
-Inductive wop (I : Type) := OReady | OSend (it : I) | OFlush | OClose.
+(* OConv: one of the state-preserving conversions of Framed — `from_parts(into_parts())`, `into_map_io`, `into_map_codec`,
+   `replace_codec` (by a codec that encodes alike): every one of them carries `write_buf`, `read_buf` and the flags over,
+   so in terms of this model nothing changes and nothing reaches the transport *)
+Inductive wop (I : Type) := OReady | OSend (it : I) | OFlush | OClose | OConv.
 Arguments OReady {I}.
 Arguments OSend {I} it.
 Arguments OFlush {I}.
 Arguments OClose {I}.
+Arguments OConv {I}.
 
 Section Write.
   Variable I : Type.
@@ -257,6 +261,7 @@ Section Write.
     | OSend it => write st it                                           (* Sink::start_send *)
     | OFlush => flush st                                                (* Sink::poll_flush *)
     | OClose => close st                                                (* Sink::poll_close *)
+    | OConv => (ROk, st, [])                                            (* into_parts/from_parts, into_map_io, ... *)
     end.
 
   (* one entry per call: result, transport events during the call, and afterwards
